@@ -104,6 +104,13 @@ def gen_inputs(run):
         out.append(("extreme-literal", ("TYPE\n  T : INT (%s..%s);\n  A : ARRAY [%s..%s] OF INT;\nEND_TYPE\n" % (l, l, l, l)).encode()))
         out.append(("extreme-literal", ("CONFIGURATION c\nRESOURCE r ON PLC\nTASK t(INTERVAL := %s, PRIORITY := %s);\nPROGRAM i WITH t : p;\nEND_RESOURCE\nEND_CONFIGURATION\n" % (l, l)).encode()))
         out.append(("extreme-literal", ("PROGRAM p\nVAR x AT %s : BOOL; END_VAR\nEND_PROGRAM\n" % l).encode()))
+    # the OSCAT description markers the preprocessor looks for, in every arrangement of up to four pieces
+    import itertools
+    pieces = ["(*@KEY@:DESCRIPTION*)", "(*@KEY@:END_DESCRIPTION*)", " x := 1; ", "\n(* c *)\n"]
+    for k in range(1, 5):
+        for combo in itertools.product(pieces, repeat=k):
+            if any(c.startswith("(*@") for c in combo):
+                out.append(("oscat-markers", "".join(combo).encode()))
     for depth in range(1, 13):
         e = "(" * depth + "1" + ")" * depth
         out.append(("nesting", ("PROGRAM p\nVAR x : INT; END_VAR\nx := %s;\nEND_PROGRAM\n" % e).encode()))
@@ -142,7 +149,7 @@ def search(run, info):
     return {"coverage": {
         "rule": "inputs = every token kind alone, pairs of token kinds, arbitrary bytes (0-200 bytes and 64 KiB), 64 KiB of ASCII noise and "
                 "of repeated valid programs, token soups, token-level mutants (delete / duplicate / swap / replace) of generated programs, "
-                "extreme literals in four contexts, bracket / statement / call nesting to depth 12 (closed and unclosed); each through "
+                "extreme literals in four contexts, the OSCAT description markers in every arrangement of up to four pieces, bracket / statement / call nesting to depth 12 (closed and unclosed); each through "
                 "tokenize, parse, analyze, render under catch_unwind with a %.0f s per-input watchdog; non-trivial = non-empty input, "
                 "distinct by content and build" % BUDGET_S,
         "builds": [b for b, _ in builds],
